@@ -112,6 +112,7 @@ def run_validate_confirm(w, fam, lines, label, v, counts, sigfn, peers=False):
     wrej = {}
     if rows:
         wrej, _, wdist = p_rsync.validate(w, fam, rows, label)
+        wrej = {(i if i < p_rsync.SECOND else i - p_rsync.SECOND): l for i, l in wrej.items()}      # (a rejected second run counts for its scenario)
         counts["wire_traces"] = counts.get("wire_traces", 0) + len(rows)
         counts["wire_events"] = counts.get("wire_events", 0) + sum(len(r["events"]) for r in rows)
         counts["wire_states"] = counts.get("wire_states", 0) + wdist
@@ -136,10 +137,12 @@ def run_validate_confirm(w, fam, lines, label, v, counts, sigfn, peers=False):
         wrej2, _, _ = p_rsync.validate(w, fam, p_rsync.rows_of(obs2), label + "-confirm")
         wire_where = {}
         rows2 = {r["id"]: r for r in p_rsync.rows_of(obs2)}
-        for i, l in wrej2.items():
+        for i, l in list(wrej2.items()):
             ev = rows2[i]["events"]
-            wire_where[i] = {"events_explained": max(0, l - 1), "first_unexplained": (ev[l - 1] if 0 < l <= len(ev) else "end of session / final tree"),
-                             "parse_error": rows2[i]["parse_err"]}
+            base = i if i < p_rsync.SECOND else i - p_rsync.SECOND
+            wire_where[base] = {"run": 1 if i < p_rsync.SECOND else 2, "events_explained": max(0, l - 1),
+                                "first_unexplained": (ev[l - 1] if 0 < l <= len(ev) else "end of session / final tree"), "parse_error": rows2[i]["parse_err"]}
+        wrej2 = {(i if i < p_rsync.SECOND else i - p_rsync.SECOND): l for i, l in wrej2.items()}
         rej2 = set(rej2) | set(wrej2)
         vlib_unreproduced(v, rej, rej2, total=len(obs))
         for o in obs2:
